@@ -95,7 +95,7 @@ B("c05-catch-all-decode", "C05", INIT, "        except UnicodeDecodeError as e:"
 B("c05-name-check-after-load", "C05", INIT, "    if backup_filename:\n        if backup_filename in (input_filename, output_filename):\n            raise ValueError(\n                \"backup_filename must be distinct from input/output filenames\"\n            )\n\n    simfile, encoding", "    simfile, encoding", "name check", more=[(INIT, "    # Preserve the original simfile contents if a backup file was requested\n", "    if backup_filename:\n        if backup_filename in (input_filename, output_filename):\n            raise ValueError(\"backup_filename must be distinct\")\n")])
 B("c05-name-check-input-only", "C05", INIT, "        if backup_filename in (input_filename, output_filename):", "        if backup_filename in (input_filename,):", "name check")
 B("c05-backup-after-yield", ["C05", "C06"], INIT, "    backup_data = str(simfile) if backup_filename else \"\"\n\n    try:\n        yield simfile", "    try:\n        yield simfile", "backup", more=[(INIT, "        output_data = str(simfile)\n", "        output_data = str(simfile)\n        backup_data = str(simfile) if backup_filename else \"\"\n")])
-B("c05-output-target-swapped", "C05", INIT, "            output_filename or input_filename, \"w\"", "            input_filename or output_filename, \"w\"", "target")
+B("c05-output-target-swapped", "C05", INIT, "            output_filename or input_filename, \"w\"", "            input_filename or output_filename, \"w\"", "output goes to")
 B("c05-extra-write-dir", "C05", DIR, "        self._ignore_duplicate = ignore_duplicate\n\n        for simfile_item", "        self._ignore_duplicate = ignore_duplicate\n        with self.filesystem.open(self._path.join(simfile_dir, \".scanned\"), \"w\") as marker:\n            marker.write(\"1\")\n\n        for simfile_item", "write effect")
 B("c05-os-remove", "C05", ASSETS, "    def _get_case_insensitive_path(self, path: str) -> Optional[str]:\n", "    def _get_case_insensitive_path(self, path: str) -> Optional[str]:\n        if path.endswith(\".tmp\"):\n            os.remove(path)\n", "write effect")
 B("c05-open-explicit-encoding-ignored", "C05", INIT, "        try_encodings = [kwargs.pop(\"encoding\")]", "        try_encodings = ENCODINGS + [kwargs.pop(\"encoding\")]", "tried encodings")
@@ -106,7 +106,7 @@ B("c06-serialize-in-with", "C06", INIT, "            writer.write(output_data)",
 B("c06-no-encode-check", "C06", INIT, "        output_data.encode(encoding, kwargs.get(\"errors\") or \"strict\")\n", "", "encoded")
 B("c06-output-before-backup", ["C05", "C06"], INIT, "        # Write backup file if requested\n        if backup_filename:\n            with filesystem.open(\n                backup_filename, \"w\", encoding=encoding, **kwargs\n            ) as writer:\n                writer.write(backup_data)\n\n", "", "backup", more=[(INIT, "            writer.write(output_data)\n", "            writer.write(output_data)\n        if backup_filename:\n            with filesystem.open(\n                backup_filename, \"w\", encoding=encoding, **kwargs\n            ) as writer:\n                writer.write(backup_data)\n")])
 B("c06-cancel-is-exception", "C06", INIT, "class CancelMutation(BaseException):", "class CancelMutation(Exception):", "CancelMutation")
-B("c06-finally-writes", "C06", INIT, "    except:\n        raise\n    else:", "    except:\n        raise\n    finally:\n        filesystem.listdir\n        \n    if True:", None)
+B("c06-finally-writes", "C06", INIT, "    except:\n        raise\n    else:", "    except:\n        raise\n    finally:\n        filesystem.open(input_filename + \".lock\", \"w\").close()\n    if True:", None)
 B("c06-raise-other", "C06", INIT, "    except:\n        raise\n    else:", "    except Exception as e:\n        raise RuntimeError(\"mutate failed\") from e\n    else:", "re-raises")
 
 # --------------------------------------------------------------------------- C07
